@@ -25,3 +25,11 @@ BOUNDED = BOUNDED + [_bt_attr_ops]
 FUNCTIONS = FUNCTIONS + [M + '__init__', N + 'assert_valid_input']
 
 FUNCTIONS = FUNCTIONS + [q for q in ATTRS if q not in FUNCTIONS]
+
+
+def _templates(ctx):
+    from pyvc import templates
+    return templates.template_obligations(ctx)
+
+
+STRUCTURAL = (globals().get('STRUCTURAL') or []) + [_templates]
